@@ -98,6 +98,24 @@ Definition has_missing (o : out) : bool :=
   | _ => false
   end.
 
+(* ---- the entries of the resolution table against the formula [resolution_of] ----
+   Certificate form (no square root needed): with S := r * (m fl g) / dxdp + p tan, the value r is the formula's
+   value iff S >= 0 and S^2 = cos^2 - p^2 (Proofs/C16_Resolution.v, resolution_certificate_exact); on doubles the
+   equation is required up to relative 2^-40.  cosa, tana are the running system's np.cos / np.tan of the stored
+   angle; they are tied to each other by cos^2 (1 + tan^2) = 1 (same tolerance), not to the angle. *)
+Definition res_tol : Q := pow2 (-40).
+Definition resolution_entry_ok (cosa tana : Q) (k : ct_key) (w r : Q) : bool :=
+  let p := res_p k w in
+  let S := r * res_den k / k_spacing k + p * tana in
+  Qle_bool 0 S && close res_tol 0 (Qred (S * S)) (Qred (cosa * cosa - p * p)).
+Definition trig_ok (cosa tana : Q) : bool :=
+  Qle_bool 0 cosa && Qle_bool 0 tana && close res_tol 0 (cosa * cosa * (1 + tana * tana)) 1.
+Definition check_res_table (tab : list (ct_key * (Q * Q) * list (Q * Q))) : bool :=
+  forallb (fun row => match row with (k, (c, t), ents) =>
+             trig_ok c t && forallb (fun wr => resolution_entry_ok c t k (fst wr) (snd wr)) ents end) tab.
+Definition strip_trig (tab : list (ct_key * (Q * Q) * list (Q * Q))) : list (ct_key * list (Q * Q)) :=
+  map (fun row => match row with (k, _, ents) => (k, ents) end) tab.
+
 (* [d2r] is the double pi/180 of the running system (np.deg2rad(x) = x * d2r) *)
 Definition check_ct (d2r : Q) (tab : list (ct_key * list (Q * Q))) (p : ct_params) (ops : list ct_op)
            (expected : list out) : Z :=
@@ -147,3 +165,8 @@ Definition check_cal_arg (p : sp_params) (a : cal_arg) (impl : res (list (list Q
 
 Definition check_cal (p : sp_params) (smin smax : Q) (xs ys : list Q) (impl : res (list (list Q))) : bool :=
   check_cal_arg p (ASpectrum smin smax xs ys) impl.
+
+(* the same, after every entry of the resolution table has been checked against the formula; -2 = an entry fails *)
+Definition check_ct_full (d2r : Q) (tab : list (ct_key * (Q * Q) * list (Q * Q))) (p : ct_params) (ops : list ct_op)
+           (expected : list out) : Z :=
+  if check_res_table tab then check_ct d2r (strip_trig tab) p ops expected else (-2)%Z.
